@@ -19,8 +19,32 @@ CLAIMED = {
                 text='For all 9 notation pairs: windows and error kinds; soundness (no accepted rule flips any of the three order relations between two symbolic years, all i32 years); completeness (refused as inconsistent => flips among the concrete witness years 2001..2029); unreachable!() and all arithmetic obligations.'),
     'C12': dict(engine='B', technique=TECH_B, ref='DESIGN.md section 4, C12', note=NOTE_B,
                 text='Every leap table of <= 3 records accepted by the real constructor x every i64 instant/count: both conversions against a declarative "correction in force" specification, monotonicity, round trip, Galois connection with transition counts, public lookup switch instant.'),
+    'C03': dict(engine='B', technique=TECH_B, ref='DESIGN.md section 4, C03', note=NOTE_B,
+                text='Every table of <= 4 (thorough 6) transitions accepted by the real constructor, 3 distinguishable types, rule none/Fixed, with and without <= 2 leap records, every i64 instant: the binary-search lookup returns the reference scan\'s type by pointer identity; DateTime::from_timespec = lookup + fields of t+offset (S_pack).'),
+    'C05': dict(engine='B', technique=TECH_B + '; civil time abstracted to its second count (contracts C01/C02)', ref='DESIGN.md section 4, C05/C06', note=NOTE_B,
+                text='Search vs forward lookup on every table zone up to the bound (<= 2 transitions quick, 3 thorough; + Fixed rule; leap variant), every civil second count and every instant: soundness, completeness, no duplicate valid instants, unique().'),
+    'C06': dict(engine='B', technique=TECH_B + '; civil time abstracted to its second count (contracts C01/C02)', ref='DESIGN.md section 4, C05/C06', note=NOTE_B,
+                text='Same zones: each Skipped entry is a real forward jump containing the local time with the right before/after types; every table gap containing it is reported; ascending order; earliest/latest are the extremes.'),
+    'C07': dict(engine='AB', technique=TECH_A + ' for every overflow/bounds/division/cast/unreachable/unwinding site; ' + TECH_B + ' default checks', ref='DESIGN.md section 4, C07', note=NOTE_A + ' ' + NOTE_B,
+                text='Panic-freedom as proof obligations: all arithmetic kernels for ALL inputs (Engine A), table/constructor/search/parser units under CBMC\'s checks with unwinding assertions (Engine B); allocation bounded by bytes present (layout harness).'),
+    'C08': dict(engine='B', technique=TECH_B + '; unit contracts + composition with abstracted callees', ref='DESIGN.md section 4, C08', note=NOTE_B + ' Paper step: units = reference and composition = reference composition => whole decoder = reference.',
+                text='Real parse_header (all buffers <= 46 B), read_data_blocks::<4>/<8> (all u32 counts), DataBlocks::parse on minimal shapes with symbolic bytes, parse_footer framing, and parse_tz_file on arbitrary <= 112-byte files with record decoding abstracted, each against an RFC 8536 reference typed in the harness.'),
+    'C09': dict(engine='B', technique=TECH_B + '; unit contracts + composition with abstracted callees', ref='DESIGN.md section 4, C09', note=NOTE_B + ' S_utf8 stub discharged on <= 3 arbitrary bytes.',
+                text='Each TZ-string sub-parser on arbitrary ASCII bytes (<= 5..7, thorough <= 10) against a reference recogniser (accept/reject, value, bytes consumed); parse_posix_tz on <= 6 arbitrary bytes with abstracted callees against a replay of the grammar on the call log (negation, default DST offset, default 02:00, separators, trailing data).'),
+    'C13': dict(engine='AB', technique=TECH_B + '; ' + TECH_A + ' for the designation / local-time-type constructors', ref='DESIGN.md section 4, C13', note=NOTE_B + ' ' + NOTE_A,
+                text='TimeZoneRef::new / TimeZone::new on arbitrary lists (<= 3 each): Ok <=> spec predicate, every error kind names a violated clause, owned = borrowed; TzAsciiStr::new/as_bytes and LocalTimeType::new for every slice of length 0..9.'),
+    'C14': dict(engine='AB', technique=TECH_A + ' for the constructors; ' + TECH_B + ' for plumbing and comparisons', ref='DESIGN.md section 4, C14', note=NOTE_A + ' ' + NOTE_B,
+                text='Invariant per constructor for all inputs (DateTime::new, from_timespec_and_local on the MIR), from_timespec/project preserve instant and nanoseconds (Kani), equality/ordering depend only on (unix_time, ns) for arbitrary literals (Kani).'),
     'C16': dict(engine='A', technique=TECH_A, ref='DESIGN.md section 4, C16', note=NOTE_A + ' Floor model of i128::div_euclid/rem_euclid.',
                 text='All i128 nanosecond counts and all (i64,u32) pairs: split exact and floor-based, accepted <=> seconds fit i64, recombination exact, constructors from total nanoseconds equal the pair constructors, round trips, nanoseconds >= 1e9 refused.'),
+    'C17': dict(engine='B', technique=TECH_B, ref='DESIGN.md section 4, C17', note=NOTE_B,
+                text='Both instantiations of the generic search on the same symbolic zone and civil time, for every buffer length 0..N+2 with a stale sentinel: count, prefix, exhaustiveness, untouched slots, error kind, unique/earliest/latest; Vec instantiation entry-wise equal.'),
+    'C18': dict(engine='A', technique=TECH_A + '; core::fmt abstracted as output events, templates compared with the compiler\'s own for the prescribed format strings', ref='DESIGN.md section 4, C18', note=NOTE_A + ' core::fmt rendering of a given template is trusted (cross-checked natively on concrete values).',
+                text='For all field values and offsets: which template is used, which values are handed to it in which order, Z vs offset vs optional seconds, error propagation, Display impls pass the right fields/offset.'),
+    'C19': dict(engine='AB', technique=TECH_A + ' and ' + TECH_B + ', run per feature configuration', ref='DESIGN.md section 4, C19', note=NOTE_A + ' ' + NOTE_B,
+                text='The crate is built (MIR) with no features, alloc, and std; kernel MIR compared across configurations; a core set of claims decided on each configuration\'s own MIR; allocation-free harnesses verified under each feature set.'),
+    'C20': dict(engine='AB', technique=TECH_B + ' over a nondeterministic virtual file system; ' + TECH_A + ' (structural reading of the MIR) for the path template', ref='DESIGN.md section 4, C20', note=NOTE_B + ' S_tzfile, S_fmt_token stubs.',
+                text='For each listed TZ value and directory list, every file-system response table: exact read sequence (order, stop at first readable, no read for the empty value), result class (Ok / TzFile without fallback / Io / POSIX fallback on the trimmed string); candidate path = format!("{}/{}", dir, name).'),
 }
 NA = {
     'C10': 'oracle is glibc/CPython run on concrete IANA files: foreign code cannot be executed symbolically and comparing concrete runs is enumeration, not a solver verdict (DESIGN.md section 5)',
